@@ -8,8 +8,22 @@ binding: TLC-simulated behaviours replayed on the real ProviderMdib (classic and
 from verif.checks import mdibcommon
 
 
+WRITERS_QUICK = [('W_metric_m1', 'W_metric_m2'), ('W_metric_m1', 'W_ctx', 'W_descr_m1')]
+WRITERS_THOROUGH = WRITERS_QUICK + [('W_metric_m1', 'W_comp_vmd', 'W_rt'), ('W_descr_m1', 'W_descr_ch', 'W_ctx'),
+                                    ('W_metric_m1', 'W_metric_m1', 'W_metric_m2', 'W_ctx')]
+
+
+def concurrent_writers(run):
+    """MdibVersion under concurrently committing threads: every interleaving of the recorded thread programs that the
+    locks admit (specs/Threads.tla) is executed on real threads; each commit raises the version by exactly one."""
+    from verif.checks.c07 import run_scenarios
+    run_scenarios(run, run.pick(WRITERS_QUICK, WRITERS_THOROUGH), run.pick(40, 800),
+                  {'one_version_per_commit', 'request_answered'}, prefix='c02')
+
+
 def check(run, replay_path=None):
     mdibcommon.run_family(run, 'C02')
+    concurrent_writers(run)
     run.assumptions += ['model universe: vmd/channel/metric + 2 dynamic descriptors + patient context with 2 states + '
                         'alert/operation/rt leaves; tokens {0,1,2}; <= 4 transactions of <= 4 calls per behaviour',
                         'API precondition: a descriptor is not added below a descriptor deleted in the same transaction',
